@@ -1388,6 +1388,15 @@ func (e *MetaCDC) getChannelReader(info *meta.TaskInfo, replicateEntity *Replica
 			if msgCollectionName != "" && !MatchCollection(info, collectionInfos, msgDatabaseName, msgCollectionName) {
 				return true
 			}
+			// a flush names its collections in a list: it is this task's business only if the task replicates one of them
+			if flushMsg, ok := pack.Msgs[0].(*msgstream.FlushMsg); ok && len(flushMsg.GetCollectionNames()) > 0 {
+				if !lo.SomeBy(flushMsg.GetCollectionNames(), func(name string) bool {
+					flushCollectionInfos := GetCollectionInfos(info, msgDatabaseName, name)
+					return flushCollectionInfos != nil && MatchCollection(info, flushCollectionInfos, msgDatabaseName, name)
+				}) {
+					return true
+				}
+			}
 		}
 
 		positionBytes, err := replicateEntity.writerObj.HandleOpMessagePack(funcCtx, pack)
